@@ -1132,7 +1132,8 @@ namespace awkward {
         std::make_shared<RecordArray>(Identities::none(),
                                       util::Parameters(),
                                       contents,
-                                      recordlookup_));
+                                      recordlookup_,
+                                      length_));
     }
   }
 
